@@ -180,6 +180,8 @@ impl fmt::Display for ObjUpvalueState {
 pub struct ObjUpvalue {
     data: ObjUpvalueState,
     pub(crate) next: Option<Gc<RefCell<ObjUpvalue>>>,
+    // The fiber whose stack an open upvalue points into.
+    owner: Option<Gc<RefCell<ObjFiber>>>,
 }
 
 impl ObjUpvalue {
@@ -187,7 +189,12 @@ impl ObjUpvalue {
         ObjUpvalue {
             data: ObjUpvalueState::Open(address),
             next: None,
+            owner: None,
         }
+    }
+
+    pub(crate) fn set_owner(&mut self, fiber: Gc<RefCell<ObjFiber>>) {
+        self.owner = Some(fiber);
     }
 
     pub(crate) fn get(&self) -> Value {
@@ -229,6 +236,7 @@ impl ObjUpvalue {
     pub fn close(&mut self) {
         let value = self.get();
         self.data = ObjUpvalueState::Closed(value);
+        self.owner = None;
     }
 }
 
@@ -236,7 +244,11 @@ impl GcManaged for ObjUpvalue {
     fn mark(&self) {
         match self.data {
             ObjUpvalueState::Closed(value) => value.mark(),
-            ObjUpvalueState::Open(_) => {}
+            ObjUpvalueState::Open(_) => {
+                if let Some(fiber) = self.owner.as_ref() {
+                    fiber.mark();
+                }
+            }
         }
         if let Some(u) = self.next.as_ref() {
             u.mark();
@@ -246,7 +258,11 @@ impl GcManaged for ObjUpvalue {
     fn blacken(&self) {
         match self.data {
             ObjUpvalueState::Closed(value) => value.blacken(),
-            ObjUpvalueState::Open(_) => {}
+            ObjUpvalueState::Open(_) => {
+                if let Some(fiber) = self.owner.as_ref() {
+                    fiber.blacken();
+                }
+            }
         }
         if let Some(u) = self.next.as_ref() {
             u.blacken();
